@@ -9,6 +9,10 @@
 (* Every event must be a step the PROPERTY level of Evict.tla allows.               *)
 EXTENDS Evict, TraceCommon
 
+\* evaluate a property-level predicate as a VALUE: inside an action TLC would otherwise split every disjunction of
+\* the predicate into separate (identical) successor computations - exponentially many for nested quantifiers
+Holds(b) == b = TRUE
+
 ExpectedRelease(C, V) ==
   [T \in {TT(C, t) : t \in TaskIds(C)} |->
      [r \in UNION {Needed(C, t) : t \in {u \in TaskIds(C) : TT(C, u) = T}} |-> Released(C, T, r, V)]]
@@ -18,14 +22,16 @@ TSeen  == /\ IsEvent("seen")
           /\ UNCHANGED <<cs, mvars>>
 
 TEvict == /\ IsEvent("evict")
-          /\ Expect(EvictAllowed(cs, victims, tried, Ev.pod, Ev.task),
+          /\ Expect(Holds(EvictAllowed(cs, victims, tried, Ev.pod, Ev.task)),
                     Clauses(cs, victims, tried, Ev.pod, Ev.task))
           /\ tried' = tried \cup {Ev.pod}
           /\ victims' = IF Ev.ok THEN victims \cup {Ev.pod} ELSE victims
           /\ UNCHANGED <<cs, mvars>>
 
 TRet   == /\ IsEvent("ret")
-          /\ Expect(RetOK(cs, victims, Ev.released), [released |-> ExpectedRelease(cs, victims)])
+          /\ Expect(Holds(RetOK(cs, victims, Ev.released) /\ PrOK(cs, victims, tried)),
+                    [Rl |-> RetOK(cs, victims, Ev.released), Pr |-> PrOK(cs, victims, tried),
+                     released |-> ExpectedRelease(cs, victims)])
           /\ UNCHANGED vars
 
 TraceInit == \E i \in Starts :
